@@ -51,8 +51,8 @@ MUTANTS += [
     dict(prop="C02", name="info-absent-takes-previous-row", file=NTB,
          old="        all_lens[present_mask] = lens\n", new="        all_lens[present_mask] = lens\n        all_lens = np.maximum.accumulate(all_lens) if n_entries > 6 else all_lens\n"),
     dict(prop="C02", name="trailing-comma-lists", file=DLB,
-         old="                row_lengths = RaggedArray(mask, (text == sep).sum(axis=-1)).sum(axis=-1)\n",
-         new="                row_lengths = (text == sep).sum(axis=-1)\n"),
+         old="                row_lengths = RaggedArray(mask, n_elements).sum(axis=-1)\n",
+         new="                row_lengths = np.bincount(np.searchsorted(np.cumsum(n_elements), np.flatnonzero(mask), side='left'), minlength=len(n_elements))\n"),
     dict(prop="C02", name="phased-genotype-swapped", file="bionumpy/encodings/vcf_encoding.py",
          old='encoded = (data[:, 0] == "1") * 2 + (data[:, 2] == "1")', new='encoded = (data[:, 0] == "1") + (data[:, 2] == "1") * 2'),
     dict(prop="C02", name="wrapped-fasta-last-line", file=MLB,
@@ -498,8 +498,8 @@ MUTANTS += [
     dict(prop="C11", name="graph-histogram-keeps-first", file=CG,
          old="    return ((histogram_a[0]+histogram_b[0]), histogram_a[1])", new="    return (np.maximum(histogram_a[0], histogram_b[0]), histogram_a[1])"),
     dict(prop="C11", name="trailing-empty-chromosomes-dropped (seeded C11-a)", file=GC,
-         old="            else:\n                logger.debug(f'Yielding empty data for {name}')\n                yield dataclass.empty()",
-         new="            else:\n                logger.debug(f'Yielding empty data for {name}')\n                if next_name is None:\n                    return\n                yield dataclass.empty()"),
+         old="            else:\n                group = dataclass.empty()\n            seen.append(name)",
+         new="            else:\n                if next_name is None and seen_group:\n                    return\n                group = dataclass.empty()\n            seen.append(name)"),
 ]
 
 MS = "bionumpy/streams/multistream.py"
